@@ -128,11 +128,15 @@ def process_nodes_recursive(
             bg_decl = None
 
             for decl in valid_decls:
-                # CSS property names are case-insensitive (COLOR: #777 is a text colour)
+                # CSS property names are case-insensitive (COLOR: #777 is a text colour).
+                # The last declaration wins, except that a plain one never overrides an
+                # earlier !important one.
                 if decl.lower_name == "color":
-                    color_decl = decl
+                    if color_decl is None or decl.important or not color_decl.important:
+                        color_decl = decl
                 elif decl.lower_name == "background-color":
-                    bg_decl = decl
+                    if bg_decl is None or decl.important or not bg_decl.important:
+                        bg_decl = decl
 
             if color_decl:
                 raw_text_color = extract_color_from_decl(color_decl)
@@ -348,14 +352,16 @@ def main(path, default_bg, mode, premium):
                                 "--"
                             ):
                                 previous = variables.get(decl.name)
-                                if (
-                                    previous is not None
-                                    and selector == "html"
-                                    and previous["selector"] == ":root"
-                                ):
-                                    # :root is more specific than html, so its
-                                    # definition wins whatever the order
-                                    continue
+                                if previous is not None:
+                                    was_important = previous["decl"].important
+                                    if was_important != decl.important:
+                                        if was_important:
+                                            # an !important definition beats a plain one
+                                            continue
+                                    elif selector == "html" and previous["selector"] == ":root":
+                                        # :root is more specific than html, so its
+                                        # definition wins whatever the order
+                                        continue
                                 variables[decl.name] = {
                                     "decl": decl,
                                     "value": tinycss2.serialize(decl.value).strip(),
